@@ -264,13 +264,15 @@ constexpr auto inverse_in(TargetUnits target_units, Quantity<U, R> q) {
     // (An extreme instance of this kind of lossiness would be the inverse of a nonzero value
     // getting represented as 0, which would happen for values over the threshold.)
 
-    // This will fail at compile time for types that can't hold 1'000'000.
-    constexpr R threshold = 1'000'000;
+    // Compare in a type that can certainly hold the threshold: in a narrow `R` (8 or 16 bits),
+    // `1'000'000` would silently wrap and let dangerous inversions through.  (`long double` holds
+    // every value of every built-in integral type exactly.)
+    constexpr long double threshold = 1'000'000.0L;
 
     constexpr auto UNITY = make_constant(UnitProductT<>{});
 
     static_assert(
-        UNITY.in<R>(associated_unit(TargetUnits{}) * U{}) >= threshold ||
+        static_cast<long double>(UNITY.in<R>(associated_unit(TargetUnits{}) * U{})) >= threshold ||
             std::is_floating_point<R>::value,
         "Dangerous inversion risking truncation to 0; must supply explicit Rep if truly desired");
 
